@@ -1,5 +1,4 @@
 import MmtkModel.Model.Trace
-import Mathlib.Tactic.SplitIfs
 /-!
 # Invariant of the tracing closure (used by Props/C01Algo.lean, C04Algo.lean)
 -/
